@@ -3,6 +3,7 @@ package props
 import (
 	"fmt"
 	"math/rand"
+	"os"
 	"path/filepath"
 	"regexp"
 	"sort"
@@ -109,7 +110,8 @@ func c14Gen(r *rand.Rand) *c14Case {
 		case "year":
 			return c14Line{kind, core.Pick(r, "# Copyright (c) 2021-%Y Core Rule Set project. All rights reserved.", "# Copyright (c) 2021-%Y CRS project. All rights reserved.")}
 		case "ver":
-			return c14Line{kind, core.Pick(r, "    ver:'OWASP_CRS/%V',\\", "    ver:'OWASP_CRS/%V'\"", "#    ver:'OWASP_CRS/%V',\\", "    t:none,ver:'OWASP_CRS/%V',severity:'CRITICAL',\\")}
+			return c14Line{kind, core.Pick(r, "    ver:'OWASP_CRS/%V',\\", "    ver:'OWASP_CRS/%V'\"", "#    ver:'OWASP_CRS/%V',\\", "    t:none,ver:'OWASP_CRS/%V',severity:'CRITICAL',\\",
+				"SecRule ARGS \"@rx "+strings.Repeat("(?:abc|def)", 150)+"\" \"id:942999,phase:2,ver:'OWASP_CRS/%V',block\"")}
 		case "two":
 			// two marker kinds on one physical line
 			return c14Line{kind, core.Pick(r, "SecAction \"id:900990,phase:1,pass,nolog,ver:'OWASP_CRS/%V',setvar:tx.crs_setup_version=%D\"", "    ver:'OWASP_CRS/%V',setvar:tx.crs_setup_version=%D,\\",
@@ -186,12 +188,17 @@ func c14Check(env *core.Env, cc core.Case) core.Verdict {
 		return core.Incon("cannot write tree: %v", err)
 	}
 	sandbox := filepath.Dir(root)
+	_ = os.Symlink("crs", filepath.Join(sandbox, "link-to-the-checkout"))
 	before := sut.Snap(sandbox)
 	v := core.Verdict{Status: core.Held, Nontrivial: markers >= 2 && c.V0 != c.Versions[len(c.Versions)-1], Counts: map[string]int{"markers": markers}}
 	v.Features = append(v.Features, fmt.Sprintf("seq-len:%d", len(c.Versions)))
 	var prev sut.Snapshot
 	for i, ver := range c.Versions {
-		r := cli(env, root, nil, "chore", "update-copyright", "-v", ver, "-y", c.Years[i])
+		runRoot := root
+		if len(c.Files)%3 == 1 {
+			runRoot = filepath.Join(sandbox, "link-to-the-checkout") // the checkout is addressed through a symbolic link to it
+		}
+		r := cli(env, runRoot, nil, "chore", "update-copyright", "-v", ver, "-y", c.Years[i])
 		if r.Exit != 0 {
 			return core.Viol("rejects-version", "update-copyright -v %s -y %s failed: %s", ver, c.Years[i], describe(r))
 		}
